@@ -40,12 +40,12 @@ def run(chk):
     layerb.check_sketch_specs(chk, ["SetSketch", "SuperMinHash"], quick)
     f, n, res = joinfam.gen_schedules(chk, "c05a", nitems=3, ninst=2, depth=3, maxslice=2, merge=True)
     chk.cov["schedules_2inst"] = n
-    joinfam.replay_join(chk, f, KINDS, "merge-2inst", stride=8 if quick else 1, ms=[1, 2, 3, 4, 5, 8], prop_tags=tags)
+    joinfam.replay_join(chk, f, KINDS, "merge-2inst", stride=5 if quick else 1, ms=[1, 2, 3, 4, 5, 8], prop_tags=tags)
     f, n, res = joinfam.gen_schedules(chk, "c05b", nitems=3, ninst=3, depth=4, maxslice=1, slice_=False, merge=True)
     chk.cov["schedules_3inst"] = n
-    joinfam.replay_join(chk, f, KINDS_SS, "merge-3inst", stride=60 if quick else 6, ms=[1, 2, 3, 4, 6], prop_tags=tags,
+    joinfam.replay_join(chk, f, KINDS_SS, "merge-3inst", stride=25 if quick else 4, ms=[1, 2, 3, 4, 6], prop_tags=tags,
                         seed=chk.seed + 1)
-    joinfam.random_join(chk, KINDS_SS + ["smh_f64_fnv"], "random-merge", runs=6 if quick else 40, length=150, nitems=100,
+    joinfam.random_join(chk, KINDS_SS + ["smh_f64_fnv"], "random-merge", runs=14 if quick else 60, length=150, nitems=100,
                         ms=[1, 2, 3, 4, 5, 7], merge=True, prop_tags=tags)
     joinfam.random_join(chk, KINDS_SS, "random-merge-large-m", runs=2 if quick else 10, length=40, nitems=40, ms=[64, 256],
                         merge=True, seed=chk.seed + 2, prop_tags=tags)
